@@ -59,7 +59,8 @@ ASSUMPTIONS = [
 ]
 REQUIRED_FEATURES = [
     "obj:pp", "obj:table", "obj:recfmt", "obj:ghist", "obj:hdoc",
-    "how:global", "how:conf", "how:no_color", "how:palette-class", "how:palette-object",
+    "how:global", "how:conf", "how:no_color", "how:palette-class", "how:palette-class-from-factory",
+    "how:palette-object", "hist:shared-enum-saw-long-unknown-value",
     "hist:drop", "hist:glob", "hist:config-recreated", "hist:fmt-change", "iter:suspended-across-op",
     "iter:by-lines",
     "merge:interleaved", "static:colored-differs-per-config", "static:palette-class-differs",
@@ -68,9 +69,11 @@ REQUIRED_FEATURES = [
 
 # ------------------------------------------------------------------------------------ alphabet
 _RENDER_Q = {
-    "tbl": ["g", "cA", "cB", "nc", "pc", "po"],
+    "tbl": ["g", "cA", "cB", "nc", "pc", "po", "f1", "f2"],
     "tbl2": ["g"],
-    "pp": ["g", "cA", "nc", "pc"],
+    "tblu": ["g", "nc"],
+    "recu": ["cA"],
+    "pp": ["g", "cA", "nc", "pc", "f1", "f2"],
     "rec1": ["g", "cA", "cB", "nc"],
     "rec2": ["cB"],
     "recr": ["g"],
@@ -88,13 +91,15 @@ _EXTRA_T = ([["r", "tbl", h] for h in ("cN", "pcA", "pcB", "ponc")] +
             [["r", "gh", h] for h in ("pc", "po")] + [["r", "tbl2", "nc"], ["r", "tbl2", "cB"]] +
             [["r", "rec1", "pc"], ["r", "tbl_s", "cA"], ["r", "tbl_s", "cB"]] +
             [["l", "gh", "cA"], ["l", "tbl", "pc"], ["o0", "tbl", "cA"], ["o0", "pp", "cB"], ["o", "pp", "cA"],
-             ["drop", "N"], ["r", "tbl2", "cA"], ["r", "rec2", "cA"], ["r", "recr", "cB"], ["o", "gh", "cB"]])
+             ["drop", "N"], ["r", "tblu", "cB"], ["r", "recu", "g"], ["r", "tbl", "f1A"], ["r", "tbl", "f2A"],
+             ["r", "pp", "f2A"], ["l", "tblu", "cA"], ["r", "tbl2", "cA"], ["r", "rec2", "cA"], ["r", "recr", "cB"], ["o", "gh", "cB"]])
 
 
 # the operations explored one level deeper in the thorough tier (histories of exactly 4 operations)
 _CORE = ([["r", "tbl", h] for h in ("g", "cA", "cB", "nc", "pc", "po")] +
          [["r", "pp", "g"], ["r", "pp", "cA"], ["r", "rec1", "g"], ["r", "rec1", "cA"], ["r", "rec1", "cB"],
           ["r", "gh", "g"], ["r", "gh", "cB"], ["r", "hd", "g"], ["r", "tbl2", "g"],
+          ["r", "tbl", "f1"], ["r", "tbl", "f2"], ["r", "tblu", "g"], ["r", "recu", "cA"],
           ["o", "tbl", "cA"], ["o", "tbl", "g"], ["f"], ["l", "tbl", "cA"],
           ["fmt", "tbl", "*"], ["fmt", "tbl", "1:1"],
           ["drop", "A"], ["drop", "B"], ["glob", "A"], ["glob", "B"], ["glob", "N"], ["glob", "-"]])
@@ -219,7 +224,7 @@ def enabled(ops):
             how = op[2]
             if how[0] == "c":
                 slots.add(how[1])
-            elif len(how) == 3 and how.startswith("pc"):
+            elif len(how) == 3 and (how.startswith("pc") or how[0] == "f"):
                 slots.add(how[2])
             if k in ("o", "o0"):
                 open_objs.append(op[1])
@@ -237,6 +242,8 @@ def how_feature(how):
         return _HOW_FEATURE[how]
     if how[0] == "c":
         return "how:conf"
+    if how[0] == "f":
+        return "how:palette-class-from-factory"
     return "how:palette-class"
 
 
@@ -320,6 +327,9 @@ def run_history(ops, acc, w):
         feats.append("iter:suspended-across-op")
     for ev in w.events:
         feats.append("hist:" + ev)
+    if any(len(op) == 3 and op[1] in ("tblu", "recu") for op in ops[:-1]) and any(
+            ob[0] not in ("tblu", "recu") and R.OBJECT_KINDS[ob[0]] in ("table", "recfmt") for ob in obs):
+        feats.append("hist:shared-enum-saw-long-unknown-value")
     if w.ids.reuses:
         feats.append("env:id-slot-reused")
     if w.ids.calls:
@@ -488,6 +498,8 @@ def _reset_shard(shard, acc):
                 seen[core.jdump(ops)] = [(o[0], o[1], o[2]) for o in w.run_all(ops)]
             except H.HistoryDisabled:
                 seen[core.jdump(ops)] = "disabled"
+            except Exception as e:  # noqa  -- judged by the hist shards; here only order-independence matters
+                seen[core.jdump(ops)] = "raised:" + type(e).__name__
             acc.trans(len(ops))
         runs.append(seen)
     if runs[0] != runs[1]:
